@@ -127,7 +127,15 @@ func (obj *Instance) Init(scope *slip.Scope, args slip.List, depth int) {
 		}
 		i++
 		val := args[i]
-		if len(cf.initable) == 0 || cf.initable[key] {
+		initable := len(cf.initable) == 0 || cf.initable[key]
+		for _, f2 := range cf.inherit {
+			// Variables declared initable by a component remain initable.
+			if initable {
+				break
+			}
+			initable = f2.initable[key]
+		}
+		if initable {
 			vkey := key[1:]
 			if _, has := cf.defaultVars[vkey]; has {
 				obj.Let(slip.Symbol(vkey), val)
